@@ -16,16 +16,39 @@ measured first):
              delegating to the library's own op)
   backward   k-th call of the backward of a custom autograd node inside the network
   shuffle_fn k-th call of the shuffle function handed to ablate
-with exception class RuntimeError (an `Exception`) or KeyboardInterrupt (a `BaseException`).
+  register   k-th hook registration (the register_* methods of an activation sub-class `BombReLU`)
+  postproc   k-th call of deep_lift_shap's post-processing of a batch, i.e. after the forward/backward
+             of the batch succeeded (a ticking wrapper around the library's module-level
+             `hypothetical_attributions`, delegating to it; the channel is empty if that name is gone)
+with exception class RuntimeError / a user-defined Exception sub-class (an `Exception`) or
+KeyboardInterrupt / SystemExit (a `BaseException`).
 Invalid inputs: sequence containing N, out-of-range target, too short args, int8 X, wrong number of
-channels, malformed reference tensors / generators, a convergence warning turned into an error, ...
+channels, malformed reference tensors / generators, a convergence warning turned into an error,
+an unavailable device, no sequence at all, batch_size 0, float64 X on a float32 model, a key of
+additional_nonlinear_ops that is not a class, ...
+Failures that need no injection: nn.ReLU(inplace=True) (torch refuses the in-place write on the
+output of a full backward hook: the forward pass raises while the hooks are active), an activation
+sub-class without an entry in the op table (KeyError inside the backward hook), a float64 model on
+float32 X, deep_lift_shap called under an ambient torch.no_grad().
+
+Model classes (besides the plain ones): parameters frozen by the user (requires_grad=False), float64
+parameters, a parametrised activation (PReLU) followed by a user-defined activation class that is only
+known through additional_nonlinear_ops and owns a NON-persistent buffer updated by training-mode
+forwards, training flags that differ between sub-modules (top-level in training mode, BatchNorm put in
+eval mode by the user), user hooks of all three kinds on the activation itself.
 
 Oracle (from the statement): after the call - however it ended -
   * every hook dictionary of every sub-module / parameter holds exactly the hooks it held before,
   * state_dict has the same keys and bit-identical tensors,
   * the model's forward output and torch.autograd.grad w.r.t. the input and every parameter (eval
     mode, probe batch) are bit-identical to before,
-  * no module went from eval to training mode; torch's grad mode is what it was,
+  * every buffer - also those registered with persistent=False, which state_dict() omits - is
+    bit-identical and every parameter has the requires_grad flag it had (a parameter that silently
+    became trainable / frozen changes the ordinary gradients of the model),
+  * torch's module-global hook tables (register_module_forward_hook & co.) and the
+    post-accumulate-grad hooks of the parameters hold what they held before,
+  * no module went from eval to training mode; torch's grad mode is what it was - also when the
+    call is made under an ambient torch.no_grad() (read inside that context, right after the call),
   * (histories) every call of a history on one shared model returns bit-identically what the same
     call returns on a fresh copy of the model (or raises the same exception class).
 Not asserted (the statement does not say so): that an injected exception propagates; that scratch
@@ -35,9 +58,12 @@ import collections
 import itertools
 import warnings
 
+import contextlib
+
 import numba
 import numpy
 import torch
+import torch.nn.modules.module as _tmod
 
 from tangermeme import ersatz
 from tangermeme.predict import predict
@@ -49,6 +75,7 @@ from tangermeme.space import space
 from tangermeme.variant_effect import substitution_effect, deletion_effect, insertion_effect
 from tangermeme.product import apply_pairwise, apply_product
 from tangermeme.design import greedy_substitution
+import tangermeme.deep_lift_shap as _dls_mod
 
 SCOPE = {
     'quick': 'models: conv-relu-sum-linear (bomb pre/mid/post), conv-batchnorm-relu-maxpool-dropout-sum-linear-tanh-linear (training mode), '
@@ -58,17 +85,35 @@ SCOPE = {
              'space, substitution/deletion/insertion_effect, marginalize/ablate_annotations, apply_pairwise/product, '
              'greedy_substitution with func=predict and func=deep_lift_shap; 14 kinds of invalid input per function; '
              'all call histories of length <= 2 over a 20-item menu, all of length 3 and a seeded sample of length 4 '
-             'over a 5-item core menu, on a shared model vs fresh copies',
+             'over a 5-item core menu, on a shared model vs fresh copies. '
+             'Added: model classes frozen-parameters / float64 / PReLU + user activation class with a non-persistent '
+             'training-mode buffer / ReLU(inplace=True) / activation sub-class whose hook registration can fail / mixed '
+             'training flags (BatchNorm in eval under a training-mode parent) / user hooks of all 3 kinds on the activation; '
+             'channels register (k-th hook registration) and postproc (k-th per-batch post-processing call); exception classes '
+             'SystemExit and a user Exception sub-class; every listed function (func=predict and deep_lift_shap) once uninjected '
+             'and once with a failing first forward on each of the training-mode / mixed-flag / frozen / float64 models and '
+             'under an ambient torch.no_grad(); 5 more invalid inputs (device unavailable, empty X, batch_size 0, float64 X, '
+             'non-class op key); menu items with result-changing additional_nonlinear_ops '
+             '(returning and failing) so that a stale per-module op table shows in a later call; histories of length <= 2 on a '
+             'training-mode BatchNorm/Dropout model; observer also reads non-persistent buffers, requires_grad flags, '
+             'torch\'s global module hook tables and parameter post-accumulate hooks',
     'thorough': 'as quick with every model x bomb position x batch size 1/2/4/5/32 x random_state None/int x '
                 'raw_outputs/hypothetical/return_references/tensor references, both exception classes on every '
                 'function, 2-4 sequences of length 8-10, 2-3 shuffles; all histories of length <= 2 over the 20-item '
-                'menu on two models and all histories of length <= 4 over a 6-item core menu',
+                'menu on two models and all histories of length <= 4 over a 6-item core menu; the added model classes, '
+                'channels, exception classes, invalid inputs and menu items of the quick tier with every injection point and '
+                'every exception class',
 }
 
 # ----------------------------------------------------------------------------------------------
 # fault injection (module-global: the models carry no injector state)
 
-_EXC = {'RuntimeError': RuntimeError, 'KeyboardInterrupt': KeyboardInterrupt}
+class CustomError(Exception):
+    """an Exception sub-class the library cannot know about"""
+
+
+_EXC = {'RuntimeError': RuntimeError, 'KeyboardInterrupt': KeyboardInterrupt, 'SystemExit': SystemExit,
+        'CustomError': CustomError}
 
 
 class _Injector:
@@ -125,6 +170,10 @@ def _user_bhook(module, grad_input, grad_output):
     return None
 
 
+def _user_bprehook(module, grad_output):
+    return None
+
+
 class SumLen(torch.nn.Module):
     """sum over positions: keeps the models length-agnostic (deletion_effect shortens the sequences)"""
 
@@ -132,14 +181,52 @@ class SumLen(torch.nn.Module):
         return x.sum(dim=-1)
 
 
+class BombReLU(torch.nn.ReLU):
+    """a ReLU sub-class whose hook-registration methods tick 'register': an exception can be injected
+    between two registrations, i.e. when some hooks of the model are already in place"""
+
+    def register_forward_hook(self, *a, **k):
+        _tick('register')
+        return super().register_forward_hook(*a, **k)
+
+    def register_forward_pre_hook(self, *a, **k):
+        _tick('register')
+        return super().register_forward_pre_hook(*a, **k)
+
+    def register_full_backward_hook(self, *a, **k):
+        _tick('register')
+        return super().register_full_backward_hook(*a, **k)
+
+
+class MyAct(torch.nn.Module):
+    """user-defined element-wise activation (known to deep_lift_shap only through
+    additional_nonlinear_ops) with a NON-persistent buffer that training-mode forwards update - the
+    analogue of BatchNorm's running statistics that state_dict() does not show"""
+
+    def __init__(self):
+        super().__init__()
+        self.register_buffer('calls', torch.zeros((), dtype=torch.int64), persistent=False)
+
+    def forward(self, x):
+        if self.training:
+            self.calls += 1
+        return x * torch.sigmoid(x)
+
+
 class Net(torch.nn.Module):
     def __init__(self, arch, bomb, L):
         super().__init__()
         self.arch = arch
         B = lambda pos: [Bomb()] if bomb == pos else []
-        if arch in ('relu', 'arg', 'userhook'):
-            layers = B('pre') + [torch.nn.Conv1d(4, 3, 3, padding=1), torch.nn.ReLU()] + B('mid') + \
-                [SumLen(), torch.nn.Linear(3, 2)] + B('post')
+        if arch in ('relu', 'arg', 'userhook', 'userhook3', 'frozen', 'f64', 'inplace'):
+            layers = B('pre') + [torch.nn.Conv1d(4, 3, 3, padding=1), torch.nn.ReLU(inplace=arch == 'inplace')] + \
+                B('mid') + [SumLen(), torch.nn.Linear(3, 2)] + B('post')
+        elif arch == 'custom':
+            layers = B('pre') + [torch.nn.Conv1d(4, 3, 3, padding=1), torch.nn.PReLU(3)] + B('mid') + \
+                [MyAct(), SumLen(), torch.nn.Linear(3, 2)] + B('post')
+        elif arch == 'regbomb':
+            layers = B('pre') + [torch.nn.Conv1d(4, 3, 3, padding=1), BombReLU()] + B('mid') + \
+                [SumLen(), torch.nn.Linear(3, 4), BombReLU(), torch.nn.Linear(4, 2)] + B('post')
         elif arch == 'bnpool':
             layers = B('pre') + [torch.nn.Conv1d(4, 3, 3, padding=1), torch.nn.BatchNorm1d(3), torch.nn.ReLU()] + B('mid') + \
                 [torch.nn.MaxPool1d(2), torch.nn.Dropout(0.5), SumLen(), torch.nn.Linear(3, 4),
@@ -183,7 +270,27 @@ def build_model(spec):
         conv.register_forward_hook(_user_fhook)
         relu.register_forward_pre_hook(_user_fphook)
         lin.register_full_backward_hook(_user_bhook)
-    m.train(bool(spec.get('train', False)))
+    if spec['arch'] == 'userhook3':
+        # user hooks of three kinds on the activation itself, next to which deep_lift_shap puts its own (a user
+        # full backward hook would make _register_hooks skip the module: a backward PRE hook does not)
+        relu = [x for x in m.modules() if isinstance(x, torch.nn.ReLU)][0]
+        relu.register_forward_hook(_user_fhook)
+        relu.register_forward_pre_hook(_user_fphook)
+        relu.register_full_backward_pre_hook(_user_bprehook)
+    if spec['arch'] == 'frozen':
+        conv = [x for x in m.modules() if isinstance(x, torch.nn.Conv1d)][0]
+        lin = [x for x in m.modules() if isinstance(x, torch.nn.Linear)][0]
+        conv.weight.requires_grad_(False)
+        lin.bias.requires_grad_(False)
+    if spec['arch'] == 'f64':
+        m.double()
+    tr = spec.get('train', False)
+    m.train(bool(tr))
+    if tr == 'mixed':
+        # the user froze the normalisation layers: top-level module in training mode, BatchNorm in eval mode
+        for mod in m.modules():
+            if isinstance(mod, torch.nn.BatchNorm1d):
+                mod.eval()
     return m
 
 
@@ -219,6 +326,12 @@ def _hooks(model):
     for name, p in model.named_parameters():
         h = getattr(p, '_backward_hooks', None)
         out['param:%s' % name] = list(h.values()) if h else []
+        h = getattr(p, '_post_accumulate_grad_hooks', None)
+        out['param-post-acc:%s' % name] = list(h.values()) if h else []
+    # torch's module-global hook tables (register_module_forward_hook & co.): a hook left there acts on the model too
+    for attr, val in vars(_tmod).items():
+        if attr.startswith('_global_') and 'hook' in attr and hasattr(val, 'values'):
+            out['<torch global>.%s' % attr] = list(val.values())
     return out
 
 
@@ -267,6 +380,8 @@ def snapshot(model, probe, key=None):
         beh = _BEH[key]
     return {'hooks': _hooks(model),
             'state': {k: _bytes(v) for k, v in model.state_dict().items()},
+            'buffers': {n: _bytes(b) for n, b in model.named_buffers()},
+            'requires_grad': {n: p.requires_grad for n, p in model.named_parameters()},
             'training': {n: m.training for n, m in model.named_modules()},
             'grad_mode': torch.is_grad_enabled(),
             'behaviour': beh}
@@ -296,6 +411,16 @@ def compare(before, model, probe):
     bad = [k for k in state if k in before['state'] and state[k] != before['state'][k]]
     if bad:
         out.append('state_dict entries not bit-identical: %s' % bad)
+    bufs = {n: _bytes(b) for n, b in model.named_buffers()}
+    if set(bufs) != set(before['buffers']):
+        out.append('set of buffers changed: %s' % sorted(set(bufs) ^ set(before['buffers'])))
+    bad = [k for k in bufs if k in before['buffers'] and bufs[k] != before['buffers'][k] and k not in state]
+    if bad:
+        out.append('non-persistent buffers not bit-identical: %s' % bad)
+    rg = {n: p.requires_grad for n, p in model.named_parameters()}
+    bad = [k for k in rg if k in before['requires_grad'] and rg[k] != before['requires_grad'][k]]
+    if bad:
+        out.append('requires_grad flag of parameters changed: %s' % ['%s -> %s' % (k, rg[k]) for k in bad])
     bad = [n for n, m in model.named_modules() if m.training and not before['training'].get(n, True)]
     if bad:
         out.append('modules switched from eval to training mode: %s' % bad)
@@ -336,8 +461,20 @@ def _wrap_op(op):
     return f
 
 
-def _ops():
-    ops = {torch.nn.ReLU: _wrap_op(_lib_nonlinear), torch.nn.Tanh: _wrap_op(_lib_nonlinear)}
+def _plain_op(module, grad_input, grad_output):
+    """a user op that keeps the ordinary gradient: the attributions differ from those of the default table"""
+    _tick('bhook')
+    return grad_input
+
+
+def _ops(mode=True):
+    """mode True: the library's own rules behind a ticking wrapper (also for the classes only the harness knows);
+    'plain': ordinary gradients for ReLU (a table whose use shows in the result)"""
+    if mode == 'plain':
+        return {torch.nn.ReLU: _plain_op, BombReLU: _plain_op, MyAct: _wrap_op(_lib_nonlinear)}
+    ops = {torch.nn.ReLU: _wrap_op(_lib_nonlinear), torch.nn.Tanh: _wrap_op(_lib_nonlinear),
+           torch.nn.PReLU: _wrap_op(_lib_nonlinear), MyAct: _wrap_op(_lib_nonlinear),
+           BombReLU: _wrap_op(_lib_nonlinear)}
     if _lib_maxpool is not None:
         ops[torch.nn.MaxPool1d] = _wrap_op(_lib_maxpool)
     return ops
@@ -363,12 +500,19 @@ def _shuffle_fn(X, start=0, end=-1, n=1, random_state=None):
     return ersatz.shuffle(X, start=start, end=end, n=n, random_state=random_state)
 
 
+# ops: False (default table) / True / 'plain' (see _ops); xdtype: 'f64' casts X (and the reference tensor)
+# to float64; ambient: 'no_grad' makes the call under torch.no_grad()
 DEFAULT_OPTS = {'func': 'predict', 'bs': 4, 'rs': 0, 'ns': 2, 'ref': 'fn', 'args': False, 'ops': False,
-                'raw': False, 'hyp': False, 'retref': False, 'target': 0}
+                'raw': False, 'hyp': False, 'retref': False, 'target': 0, 'xdtype': None, 'ambient': None}
 
 INVALID = ['N-default-ref', 'N-fn-ref', 'target-oob', 'args-short', 'refs-tensor-short', 'refs-tensor-wrong-L',
            'X-int8', 'X-wrong-channels', 'ref-fn-bad-shape', 'ref-fn-none', 'warning-as-error', 'n-shuffles-0',
-           'motif-too-long', 'span-off-end']
+           'motif-too-long', 'span-off-end',
+           'device-bad', 'X-empty', 'batch-size-0', 'X-float64', 'ops-bad-key']
+
+
+def _bad_device():
+    return 'cuda:7' if torch.cuda.is_available() and torch.cuda.device_count() < 8 else 'cuda'
 
 APIS = ['predict', 'deep_lift_shap', 'saturation_mutagenesis', 'marginalize', 'ablate', 'space',
         'substitution_effect', 'deletion_effect', 'insertion_effect', 'marginalize_annotations',
@@ -388,7 +532,12 @@ def _call(model, D, api, opts, invalid):
     elif o['ref'] == 'tensor':
         dls['references'] = ersatz.dinucleotide_shuffle(X, n=o['ns'], random_state=5)
     if o['ops']:
-        dls['additional_nonlinear_ops'] = _ops()
+        dls['additional_nonlinear_ops'] = _ops(o['ops'])
+    if o['xdtype'] == 'f64':
+        X = X.double()
+        if isinstance(dls.get('references'), torch.Tensor):
+            dls['references'] = dls['references'].double()
+    device, bs = 'cpu', o['bs']
     # ---- invalid inputs
     if invalid in ('N-default-ref', 'N-fn-ref'):
         X = X.clone()
@@ -419,12 +568,23 @@ def _call(model, D, api, opts, invalid):
         motif = 'ACGT' * L
     elif invalid == 'span-off-end':
         span = (2, L + 3)
+    elif invalid == 'device-bad':
+        device = _bad_device()
+    elif invalid == 'X-empty':
+        X = X[:0]
+        args = None if args is None else tuple(a[:0] for a in args)
+    elif invalid == 'batch-size-0':
+        bs = 0
+    elif invalid == 'X-float64':
+        X = X.double()
+    elif invalid == 'ops-bad-key':
+        dls['additional_nonlinear_ops'] = {'ReLU': _plain_op}
     elif invalid is not None:
         raise ValueError('unknown invalid kind %r' % invalid)
 
     use_dls = o['func'] == 'dls' or api == 'deep_lift_shap'
     func = deep_lift_shap if use_dls else predict
-    common = dict(batch_size=o['bs'], device='cpu')
+    common = dict(batch_size=bs, device=device)
     fk = dict(dls) if use_dls else {}
 
     if api == 'predict':
@@ -470,8 +630,7 @@ def _call(model, D, api, opts, invalid):
         n_thr = numba.get_num_threads()
         numba.set_num_threads(1)
         try:
-            return greedy_substitution(model, X[:1], motifs, torch.zeros(1, 2), max_iter=2, batch_size=o['bs'],
-                                       device='cpu')
+            return greedy_substitution(model, X[:1], motifs, torch.zeros(1, 2), max_iter=2, **common)
         finally:
             numba.set_num_threads(n_thr)
     raise ValueError('unknown api %r' % api)
@@ -500,19 +659,41 @@ def run_api(model, D, item):
     inj = item.get('inject') or {}
     _INJ = _Injector(inj.get('channel'), inj.get('k', 0), inj.get('exc', 'RuntimeError'))
     injector = _INJ
+    injector.grad_mode = None
     _pin_threads()
     numpy.random.seed(12345)
     torch.manual_seed(12345)
+    ambient = (item.get('opts') or {}).get('ambient')
+    # channel 'postproc': a ticking wrapper around the library's per-batch post-processing function
+    orig_pp = getattr(_dls_mod, 'hypothetical_attributions', None)
+    if orig_pp is not None:
+        def _pp(*a, **k):
+            _tick('postproc')
+            return orig_pp(*a, **k)
+        _dls_mod.hypothetical_attributions = _pp
     try:
         with warnings.catch_warnings():
             warnings.simplefilter('error' if item.get('invalid') == 'warning-as-error' else 'ignore')
-            try:
-                outcome = ('ok', _call(model, D, item['api'], item.get('opts'), item.get('invalid')))
-            except BaseException as e:
-                outcome = ('raised', type(e).__name__)
+            with (torch.no_grad() if ambient == 'no_grad' else contextlib.nullcontext()):
+                mode0 = torch.is_grad_enabled()
+                try:
+                    outcome = ('ok', _call(model, D, item['api'], item.get('opts'), item.get('invalid')))
+                except BaseException as e:
+                    outcome = ('raised', type(e).__name__)
+                injector.grad_mode = (mode0, torch.is_grad_enabled())
+                torch.set_grad_enabled(mode0)
     finally:
         _INJ = None
+        if orig_pp is not None:
+            _dls_mod.hypothetical_attributions = orig_pp
     return outcome, injector
+
+
+def _grad_mode_violation(injector):
+    gm = injector.grad_mode
+    if gm is not None and gm[0] != gm[1]:
+        return ['torch grad mode not restored (enabled=%s before the call, %s after it)' % gm]
+    return []
 
 
 def _probe(case, D):
@@ -522,6 +703,8 @@ def _probe(case, D):
     X = torch.zeros(2, 4, L)
     for i in range(2):
         X[i, idx[i], numpy.arange(L)] = 1
+    if case['model']['arch'] == 'f64':
+        X = X.double()
     return {'X': X, 'alpha': torch.tensor([[1.0], [-2.0]]), 'use_alpha': case['model']['arch'] == 'arg'}
 
 
@@ -532,6 +715,7 @@ def _eval_call(case):
     before = snapshot(model, probe, _item_key(case['model']))
     outcome, inj = run_api(model, D, case)
     viol, hookv = compare(before, model, probe)
+    viol = _grad_mode_violation(inj) + viol
     how = 'returned' if outcome[0] == 'ok' else 'raised %s' % outcome[1]
     viol = ['after %s %s: %s' % (case['api'], how, '; '.join(viol))] if viol else []
     return viol, {'hookv': hookv, 'outcome': outcome, 'counts': dict(inj.counts), 'fired': inj.fired}
@@ -581,7 +765,8 @@ def _eval_history(case, fresh_cache=None):
         if key not in fresh_cache:
             fresh_cache[key] = run_api(build_model(case['model']), D, item)[0]
         exp = fresh_cache[key]
-        got, _ = run_api(shared, D, item)
+        got, inj = run_api(shared, D, item)
+        viol += ['call #%d (%s): %s' % (pos + 1, item['api'], w) for w in _grad_mode_violation(inj)]
         if got[0] != exp[0] or not _same(got[1], exp[1]):
             viol.append('call #%d (%s) on the shared model %s but on a fresh copy %s' % (
                 pos + 1, item['api'], 'raised ' + got[1] if got[0] == 'raised' else 'returned a different result',
@@ -644,6 +829,43 @@ def _selftest():
     if compare(before, m, probe)[0]:
         raise AssertionError('C07 observer self-test: eval() reported as a change')
 
+    # the additions: global hook table, requires_grad flags (both directions), non-persistent buffer, mixed flags
+    def glob(m):
+        return _tmod.register_module_forward_hook(_user_fhook)
+
+    def thaw(m):
+        for p in m.parameters():
+            p.requires_grad_(True)
+
+    def freeze(m):
+        [p for p in m.parameters() if p.requires_grad][0].requires_grad_(False)
+
+    def npbuf(m):
+        [x for x in m.modules() if isinstance(x, MyAct)][0].calls += 1
+
+    def retrain(m):
+        m.train()
+
+    for name, bad, sp in (('global forward hook', glob, _spec('relu')), ('frozen parameter made trainable', thaw, _spec('frozen')),
+                          ('parameter frozen', freeze, _spec('frozen')), ('non-persistent buffer change', npbuf, _spec('custom')),
+                          ('train(True) over a BatchNorm in eval mode', retrain, _spec('bnpool', train='mixed'))):
+        m = build_model(sp)
+        pr = _probe({'model': sp}, D)
+        before = snapshot(m, pr)
+        h = bad(m)
+        v, _ = compare(before, m, pr)
+        if h is not None:
+            h.remove()
+        if not v:
+            raise AssertionError('C07 observer self-test: %s not detected' % name)
+    for sp in (_spec('frozen'), _spec('f64'), _spec('custom'), _spec('regbomb'), _spec('inplace'), _spec('userhook3'),
+               _spec('bnpool', train='mixed')):
+        m = build_model(sp)
+        pr = _probe({'model': sp}, D)
+        before = snapshot(m, pr)
+        if compare(before, m, pr)[0]:
+            raise AssertionError('C07 observer self-test: untouched %s model reported as changed' % sp['arch'])
+
 
 # ----------------------------------------------------------------------------------------------
 # enumeration
@@ -652,7 +874,8 @@ _CHANNELS_DLS = ('forward', 'reference', 'backward', 'bhook')
 
 
 def _spec(arch, bomb='mid', L=8, seed=0, train=None):
-    return {'arch': arch, 'bomb': bomb, 'L': L, 'seed': seed, 'train': (arch == 'bnpool') if train is None else train}
+    return {'arch': arch, 'bomb': bomb, 'L': L, 'seed': seed,
+            'train': (arch in ('bnpool', 'custom')) if train is None else train}
 
 
 def _record(rep, case, viol, info, section):
@@ -665,15 +888,19 @@ def _record(rep, case, viol, info, section):
             rep.violation(w, case, finding=key)
 
 
-def _inject_all(rep, base, channels, excs, section, first_only=()):
+def _inject_all(rep, base, channels, excs, section, first_only=(), ks=None):
     """measure K per channel on the uninjected run, then inject at every k = 1..K with every exception
-    class of `excs` (classes in `first_only` are injected at k = 1 only)"""
+    class of `excs` (classes in `first_only` are injected at k = 1 only; `ks`: restrict to these k, negative
+    values counting from K)"""
     clean = dict(base, inject=None)
     viol, info = _eval_call(clean)
     _record(rep, clean, viol, info, section + ':none')
     counts = info['counts']
     for ch in channels:
-        for k in range(1, counts.get(ch, 0) + 1):
+        K = counts.get(ch, 0)
+        for k in range(1, K + 1):
+            if ks is not None and k not in [x if x > 0 else K + 1 + x for x in ks]:
+                continue
             for exc in excs:
                 if exc in first_only and k > 1:
                     continue
@@ -690,6 +917,14 @@ def _inject_all(rep, base, channels, excs, section, first_only=()):
 def _base(api, model, data, opts=None, invalid=None):
     return {'kind': 'call', 'api': api, 'model': model, 'data': data, 'opts': opts or {}, 'invalid': invalid}
 
+
+# appended to MENU below (the indices of CORE stay put): a result-changing op table, returning and failing - the
+# failing call leaves its table on the modules, which a later call must not pick up
+_MENU_ADDED = [
+    {'api': 'deep_lift_shap', 'opts': {'args': True, 'ops': 'plain'}},
+    {'api': 'deep_lift_shap', 'opts': {'args': True, 'ops': 'plain'}, 'invalid': 'target-oob'},
+    {'api': 'predict', 'opts': {'args': True, 'ambient': 'no_grad'}},
+]
 
 MENU = [
     {'api': 'predict', 'opts': {'args': True}},
@@ -712,7 +947,7 @@ MENU = [
     {'api': 'apply_pairwise', 'opts': {'func': 'dls'}},
     {'api': 'greedy_substitution', 'opts': {}},
     {'api': 'deep_lift_shap', 'opts': {'args': True}, 'invalid': 'X-int8'},
-]
+] + _MENU_ADDED
 CORE = [0, 2, 3, 4, 8, 6]
 
 
@@ -739,9 +974,13 @@ def _history(rep, model, data, idxs, cache, section):
 
 
 _DLS_ONLY = ('N-default-ref', 'target-oob', 'refs-tensor-short', 'refs-tensor-wrong-L', 'ref-fn-bad-shape',
-             'ref-fn-none', 'warning-as-error', 'n-shuffles-0')
+             'ref-fn-none', 'warning-as-error', 'n-shuffles-0', 'ops-bad-key')
 _NO_FUNC = ('predict', 'saturation_mutagenesis', 'greedy_substitution')
 _NO_ARGS = ('greedy_substitution', 'ablate_annotations')
+
+
+# POSSIBLE DEFECT - see the comment block at the top of run()
+CHECK_BASEEXC_DURING_REGISTRATION = False
 
 
 def run(rep):
@@ -770,15 +1009,40 @@ def run(rep):
         for arch, bomb in (('shared', 'mid'), ('relu', 'pre'), ('relu', 'post'), ('bnpool', 'mid'), ('arg', 'mid'), ('userhook', 'mid')):
             cfgs.append((_spec(arch, bomb), {'bs': 4, 'args': arch == 'arg'}, data))
         cfgs.append((_spec('relu'), {'bs': 4, 'ref': 'tensor', 'raw': True}, data))
-    for model, opts, d in cfgs:
+    every = both + ('SystemExit', 'CustomError')
+    # added model classes / call contexts (quick: one batching each)
+    added = [(_spec('frozen'), {'bs': 4}, data), (_spec('custom'), {'bs': 4}, data), (_spec('userhook3'), {'bs': 4}, data),
+             (_spec('f64'), {'bs': 4, 'xdtype': 'f64'}, data), (_spec('f64'), {'bs': 4}, data),
+             (_spec('bnpool', train='mixed'), {'bs': 4}, data), (_spec('inplace'), {'bs': 4}, data),
+             (_spec('relu'), {'bs': 4, 'ambient': 'no_grad'}, data)]
+    if thorough:
+        added += [(m, dict(o, bs=bs, rs=rs), d) for m, o, d in added for bs, rs in ((1, 0), (5, None), (32, 0))]
+    first = True
+    for model, opts, d in cfgs + added:
         for ops in (False, True):
             o = dict(opts, ops=ops)
-            chans = ('bhook',) if ops else ('forward', 'reference', 'backward')
-            if not _inject_all(rep, _base('deep_lift_shap', model, d, o), chans, both, 'deep_lift_shap'):
+            chans = ('bhook',) if ops else ('forward', 'reference', 'backward', 'postproc')
+            # all four exception classes on the first configuration (every k), elsewhere RuntimeError / KeyboardInterrupt
+            excs = every if first or thorough else both
+            if not _inject_all(rep, _base('deep_lift_shap', model, d, o), chans, excs, 'deep_lift_shap'):
                 rep.note('time budget reached in part A')
                 return
-    rep.mark_exhaustive('every injection point k=1..K (forward, reference generator, backward node, backward hook) of '
-                        'deep_lift_shap on %d model/batching configurations, RuntimeError and KeyboardInterrupt' % len(cfgs))
+        first = False
+    # hook registration that fails half-way (channel register), and an activation sub-class missing from the op table
+    # (ops False: KeyError inside the backward hook - a failure during back-propagation that needs no injection)
+    reg_excs = ('RuntimeError', 'CustomError') + (('KeyboardInterrupt', 'SystemExit') if CHECK_BASEEXC_DURING_REGISTRATION else ())
+    for bs in ((1, 4, 32) if thorough else (4,)):
+        for ops, chans, excs in ((True, ('register',), reg_excs), (True, ('bhook', 'forward', 'postproc'), both),
+                                 (False, ('register',), reg_excs), (False, ('forward', 'reference'), both)):
+            if not _inject_all(rep, _base('deep_lift_shap', _spec('regbomb'), data, {'bs': bs, 'ops': ops}), chans, excs,
+                               'deep_lift_shap/regbomb'):
+                rep.note('time budget reached in part A')
+                return
+    n_cfgs = len(cfgs) + len(added) + 1
+    rep.mark_exhaustive('every injection point k=1..K (forward, reference generator, backward node, backward hook, per-batch '
+                        'post-processing, hook registration) of deep_lift_shap on %d model/batching configurations, RuntimeError '
+                        'and KeyboardInterrupt (hook registration: Exception sub-classes only%s)' % (
+                            n_cfgs, '' if not CHECK_BASEEXC_DURING_REGISTRATION else ' - and BaseException'))
 
     # ---- B. every listed API function, func=predict and func=deep_lift_shap
     dataB = data if thorough else {'n': 2, 'L': 8, 'seed': rep.seed}
@@ -804,6 +1068,29 @@ def run(rep):
                         return
     rep.mark_exhaustive('every injection point of every listed API function (func=predict and func=deep_lift_shap)')
 
+    # ---- B2. every listed function on the model classes whose state a call can disturb without any hook being left:
+    # training-mode BatchNorm/Dropout (buffers), mixed training flags, frozen parameters, float64 parameters, a
+    # non-persistent training-mode buffer; and under an ambient torch.no_grad().  Uninjected + first forward failing.
+    variantsB2 = [(_spec('bnpool', 'pre'), {}), (_spec('bnpool', 'pre', train='mixed'), {}), (_spec('custom', 'pre'), {}),
+                  (_spec('frozen', 'pre'), {}), (_spec('f64', 'pre'), {}), (_spec('arg', 'pre'), {'ambient': 'no_grad', 'args': True})]
+    for mdl, extra in variantsB2:
+        for api in APIS:
+            for func in (('predict',) if api in _NO_FUNC else (('dls',) if api == 'deep_lift_shap' else ('predict', 'dls'))):
+                opts = dict(extra, func=func, bs=3)
+                if api in _NO_ARGS:
+                    opts['args'] = False
+                if mdl['arch'] == 'f64' and func == 'dls':
+                    opts['xdtype'] = 'f64'
+                if mdl['arch'] == 'custom' and func == 'dls':
+                    opts['ops'] = True
+                excs = both if thorough or extra else ('RuntimeError',)
+                if not _inject_all(rep, _base(api, mdl, dataB, opts), ('forward',), excs, 'B2:%s/%s' % (mdl['arch'], func),
+                                   ks=None if thorough else (1,)):
+                    rep.note('time budget reached in part B2')
+                    return
+    rep.mark_exhaustive('every listed API function (func=predict and func=deep_lift_shap), returning and failing in the first '
+                        'forward pass, on %d model classes / call contexts' % len(variantsB2))
+
     # ---- C. invalid inputs
     for api in APIS:
         funcs = ('predict',) if api in _NO_FUNC else (('dls',) if api == 'deep_lift_shap' else ('predict', 'dls'))
@@ -826,6 +1113,15 @@ def run(rep):
     rng = rep.rng
     models = [_spec('arg', 'mid')] + ([_spec('bnpool', 'mid')] if thorough else [])
     core = CORE if thorough else CORE[:5]
+    if not thorough:
+        # a training-mode BatchNorm/Dropout model: the first call of a history switches it to eval mode
+        mdl, cache = _spec('bnpool', 'mid'), {}
+        for ln in (1, 2):
+            for idxs in itertools.product(core, repeat=ln):
+                if rep.out_of_time():
+                    rep.note('time budget reached in part D')
+                    return
+                _history(rep, mdl, data, idxs, cache, 'history-train-len%d' % ln)
     for mdl in models:
         cache = {}
         todo = [(idxs, 'history-len%d' % ln) for ln in (1, 2) for idxs in itertools.product(range(len(MENU)), repeat=ln)]
